@@ -207,6 +207,10 @@ Definition gillespie (g : graph) (kind : model_kind) (tau gamma : Q)
       let tlog0 := if full then rev (map (fun u => (tmin, None, u)) i0) else [] in
       lift (init_sets g st0 i0) (fun il =>
         loop g kind tau gamma tmin tmax full fuel tmin (mkG st0 (fst il) (snd il) rows0 elog0 tlog0)) in
+    (* Gillespie_SIR: "cannot define both initial_recovereds and rho" (Gillespie_SIS has no such argument) *)
+    match rho, r0, kind with
+    | Some _, Some _, SIR => Fail EoNError
+    | _, _, _ =>
     match i0 with
     | Some l => with_i0 l
     | None =>
@@ -214,6 +218,7 @@ Definition gillespie (g : graph) (kind : model_kind) (tau gamma : Q)
       if (n <? 0)%Z then Fail ValueErr
       else Sample (map knode (gnodes g)) (Z.to_nat n) (fun ks =>
              with_i0 (concat ks))
+    end
     end
   end.
 
